@@ -137,6 +137,11 @@ func (c14World) Run(prop string, ch *zsim.Choices, trace bool) *RunResult {
 				d.min = []zerolog.Level{zerolog.DebugLevel, zerolog.InfoLevel, zerolog.WarnLevel, zerolog.ErrorLevel, zerolog.TraceLevel, zerolog.NoLevel, zerolog.Level(5)}[ch.Intn(7)]
 				ws = append(ws, &zerolog.FilteredLevelWriter{Writer: c14Leveled{d}, Level: d.min})
 			}
+			if ch.Chance(1, 5) {
+				// a SyncWriter around one destination: bytes, level and result must pass through it
+				ws[len(ws)-1] = zerolog.SyncWriter(ws[len(ws)-1])
+				zsim.Probe("sync_wrapped_destination")
+			}
 		}
 		var lg zerolog.Logger
 		nested := false
@@ -146,6 +151,9 @@ func (c14World) Run(prop string, ch *zsim.Choices, trace bool) *RunResult {
 			// a MultiLevelWriter inside a MultiLevelWriter: same fan-out, same first-failure rule
 			nested = true
 			lg = zerolog.New(zerolog.MultiLevelWriter(zerolog.MultiLevelWriter(ws[:2]...), zerolog.MultiLevelWriter(ws[2:]...)))
+		} else if ch.Chance(1, 4) {
+			zsim.Probe("sync_wrapped_fanout")
+			lg = zerolog.New(zerolog.SyncWriter(zerolog.MultiLevelWriter(ws...)))
 		} else {
 			lg = zerolog.New(zerolog.MultiLevelWriter(ws...))
 		}
